@@ -227,7 +227,7 @@ fn vf_pattern_block_b(pattern: &str, mask0: NetworkFilterMask, fs0: usize, fe0: 
         if r.1 is Some {
             assert(r.1->Some_0 == filter->Some_0);
             assert(r.0 == mask);
-            assert(body_is(r.1->Some_0, pattern, filter_index_start as int, filter_index_end as int, r.0.has(NetworkFilterMask::MATCH_CASE)));
+            assert(body_is(r.1->Some_0, pattern, filter_index_start as int, filter_index_end as int, r.0.has(NetworkFilterMask::MATCH_CASE))); // OBL C02.parse.body.text
         }
     }
     r
